@@ -464,6 +464,9 @@ def prec_source(case: dict[str, Any]) -> tuple[str, dict[str, str]]:
     lit = {ly: ("nil" if ly == nil else "'" + ly + "'") for ly in ("local", "block")}
     assign = "{% assign " + name + " = " + lit["local"] + " %}" if "local" in layers else ""
     head = "{% increment " + name + " %}|" if "counter" in layers else ""
+    if case.get("lambda"):
+        # a lambda whose parameter has the same name ran (and stopped early) before the lookup: its scope is gone
+        head += "{% assign r__ = '1,2,3' | split: ',' | " + case["lambda"] + ": " + name + " => " + name + " == '2' %}"
     templates: dict[str, str] = {}
     if "block" not in layers:
         return head + assign + look, templates
@@ -539,6 +542,11 @@ class C10(Prop):
                                 for mode in ("sync", "async"):
                                     yield {"kind": "prec", "name": name, "layers": layers, "block": kind,
                                            "assign_inside": inside, "route": route, "bare": bare, "mode": mode}
+                                    if name == "x" and not bare:
+                                        for fl in ("find", "has", "find_index", "where"):
+                                            yield {"kind": "prec", "name": name, "layers": layers, "block": kind,
+                                                   "assign_inside": inside, "route": route, "bare": bare,
+                                                   "mode": mode, "lambda": fl}
                                     # the same subset with one layer binding nil: it still hides what is below it
                                     for nl in layers:
                                         if nl in NIL_LAYERS and kind in (None, "with", "include") and len(layers) >= 2:
@@ -733,7 +741,7 @@ class C10(Prop):
                 got_layer = next((ly for ly, v in LAYER_VALUE.items() if v == val), "other")
             res.fail(
                 "precedence",
-                f"precedence:{'nil-' if want_layer == case.get('nil_layer') else ''}{want_layer}-lost-to:{got_layer}",
+                f"precedence:{'nil-' if case.get('nil_layer') and want_layer == case.get('nil_layer') else ''}{want_layer}-lost-to:{got_layer}",
                 f"name {name!r} bound in {layers}: rendered {val!r}, documented order gives layer {want_layer!r}; "
                 f"src={src!r} mode={case['mode']} route={case['route']} bare={case['bare']}",
             )
